@@ -15,6 +15,7 @@ import json
 import os
 import subprocess
 import sys
+import time
 
 import vf
 
@@ -56,24 +57,29 @@ def classification(system, line):
 
 
 def run_sharded(exe, args, lines, workdir, tag, timeout=3000):
-    """run exe over the case lines split in NCPU shards; returns the output lines in order"""
+    """run exe over the case lines split in NCPU shards (outputs go to files, so no child ever waits for the
+    parent to read a pipe); returns the output lines in order"""
     n = max(1, min(vf.NCPU, len(lines) // 50 + 1))
     procs = []
     for k in range(n):
         part = lines[k::n]
         p = os.path.join(workdir, "%s.%d.cases" % (tag, k))
+        o = os.path.join(workdir, "%s.%d.out" % (tag, k))
         with open(p, "w") as f:
             f.write("".join(l + "\n" for l in part))
-        procs.append((len(part), subprocess.Popen([exe] + args + [p], stdout=subprocess.PIPE, stderr=subprocess.DEVNULL)))
+        fo = open(o, "w")
+        procs.append((len(part), o, fo, subprocess.Popen([exe] + args + [p], stdout=fo, stderr=subprocess.DEVNULL)))
     out = [None] * len(lines)
-    for k, (cnt, pr) in enumerate(procs):
+    t0 = time.time()
+    for k, (cnt, o, fo, pr) in enumerate(procs):
         try:
-            o = pr.communicate(timeout=timeout)[0].decode("utf-8", "replace").split("\n")
+            pr.wait(timeout=max(1, timeout - (time.time() - t0)))
         except subprocess.TimeoutExpired:
             pr.kill()
-            o = []
+        fo.close()
+        res = open(o, errors="replace").read().split("\n")
         for i in range(cnt):
-            out[k + i * n] = o[i] if i < len(o) and o[i] != "" else "<missing>"
+            out[k + i * n] = res[i] if i < len(res) and res[i] != "" else "<missing>"
     return out
 
 
